@@ -112,9 +112,15 @@ impl<'a> Layer<'a> {
     /// Returns if this layer is visible. This requires that this layer and all
     /// of its parent layers are visible.
     pub fn is_visible(&self) -> bool {
-        let layer_is_visible = self.data().flags.contains(LayerFlags::VISIBLE);
-        let parent_is_visible = self.parent().map(|p| p.is_visible()).unwrap_or(true);
-        layer_is_visible && parent_is_visible
+        // Walk up iteratively: groups can be nested tens of thousands deep.
+        let mut layer_id = Some(self.layer_id);
+        while let Some(id) = layer_id {
+            if !self.file.layers[id].flags.contains(LayerFlags::VISIBLE) {
+                return false;
+            }
+            layer_id = self.file.layers.parents[id as usize];
+        }
+        true
     }
 
     /// Get a reference to the Cel for this frame in the layer.
